@@ -690,12 +690,22 @@ Definition elements_read (s : section) (want_parent : bool) : res (section * out
   if negb (count =? 0) && negb (count =? s_dim s) then RErr else
   ROk (s, [conn_all s] ++ parent_all s want_parent).
 
-Definition poly_elements_read (s : section) (want_parent : bool) : res (section * out) :=
-  let offset_data := if s_hasoff s && is_size_t (s_dt s) then s_off_mem s else None in
+(* RCurrent: the code as it is -- the cached start offsets are only used for the "double check" when the
+   STORED type is cgsize_t (although the cache always holds cgsize_t), and the check demands
+   count == ElementDataSize.  RFixed: the repair proposed in notes/C10.md -- the cache is used whatever the
+   stored type, and only count > ElementDataSize is an error (the node may hold reserved space). *)
+Inductive rvariant := RCurrent | RFixed.
+
+Definition poly_elements_read (rv : rvariant) (s : section) (want_parent : bool) : res (section * out) :=
+  let offset_data := match rv with
+                     | RCurrent => if s_hasoff s && is_size_t (s_dt s) then s_off_mem s else None
+                     | RFixed => if s_hasoff s then s_off_mem s else None
+                     end in
   let num := s_r1 s - s_r0 s + 1 in
   let count := element_data_size (s_type s) num (s_conn_mem s) offset_data in
   if count <? 0 then RErr else
-  if negb (count =? 0) && negb (count =? s_dim s) then RErr else
+  if negb (count =? 0) && (match rv with RCurrent => negb (count =? s_dim s) | RFixed => s_dim s <? count end)
+  then RErr else
   let offs := if s_hasoff s then
                 [match s_off_mem s with
                  | Some m => if is_size_t (s_dt s) then firstn (Z.to_nat (s_odim s)) m
@@ -894,7 +904,7 @@ Definition lift_w (r : res section) : res (state * out) :=
 Definition lift_r (r : res (section * out)) : res (state * out) :=
   match r with ROk (s, o) => ROk (Some s, o) | RErr => RErr | RFault => RFault end.
 
-Definition step_gen (pv : pvariant) (st : state) (o : op) : res (state * out) :=
+Definition step_gen (pv : pvariant) (rv : rvariant) (st : state) (o : op) : res (state * out) :=
   match o, st with
   | OSecWrite t a b e, _ => lift_w (section_write t a b e)
   | OPolySecWrite t a b e f, _ => lift_w (poly_section_write t a b e f)
@@ -909,7 +919,7 @@ Definition step_gen (pv : pvariant) (st : state) (o : op) : res (state * out) :=
   | OInfo, Some s => ROk (Some s, [section_info s])
   | OPartialSize a b, Some s => lift_r (element_partial_size s a b)
   | OElemRead w, Some s => lift_r (elements_read s w)
-  | OPolyRead w, Some s => lift_r (poly_elements_read s w)
+  | OPolyRead w, Some s => lift_r (poly_elements_read rv s w)
   | OElemPartialRead a b w, Some s => lift_r (elements_partial_read s a b w)
   | OPolyPartialRead a b w, Some s => lift_r (poly_elements_partial_read s a b w)
   | OElemGeneralRead mt a b, Some s => lift_r (elements_general_read s a b mt)
@@ -918,10 +928,13 @@ Definition step_gen (pv : pvariant) (st : state) (o : op) : res (state * out) :=
   | OReopen, Some s => lift_w (reopen s)
   end.
 
-(* THE ONE-LINE SWITCH: which parent-data resize the code in /repo has.  PCurrent = the code as it is at the
-   pinned commit (defect: see notes/C10.md); set to PFixed once the repair of notes/C10.md is applied. *)
-Definition impl_pvariant : pvariant := PCurrent.
+(* THE ONE-LINE SWITCHES: which variant the code in /repo has.
+   impl_pvariant: PFixed since /repo commit 4b28a57 (parent rows kept in place when a partial write extends a
+   section); PCurrent stays expressible for the historical defect (C10_parent_refuted).
+   impl_rvariant: RCurrent = cg_poly_elements_read as it is (defect "poly-read-fails-i4-cached", notes/C10.md);
+   set to RFixed once that repair is applied. *)
+Definition impl_pvariant : pvariant := PFixed.
+Definition impl_rvariant : rvariant := RCurrent.
 
-Definition step (st : state) (o : op) : res (state * out) := step_gen impl_pvariant st o.
-Definition step_fixed (st : state) (o : op) : res (state * out) := step_gen PFixed st o.
-Definition step_current (st : state) (o : op) : res (state * out) := step_gen PCurrent st o.
+Definition step (st : state) (o : op) : res (state * out) := step_gen impl_pvariant impl_rvariant st o.
+Definition step_old_parent (st : state) (o : op) : res (state * out) := step_gen PCurrent impl_rvariant st o.
